@@ -24,7 +24,9 @@ Record cobs := CO {
   co_code : nat;              (* 0 = returned normally, else the exception code              *)
   co_sep : str;               (* root.sep afterwards                                         *)
   co_tree : otree;            (* whole tree afterwards ([] when nothing was built)            *)
-  co_rets : list nat }.       (* pre-order indices of the returned node(s)                    *)
+  co_rets : list nat;         (* pre-order indices of the returned node(s)                    *)
+  co_split : nat }.           (* > 0: the entry point was called twice on the same tree, first with
+                                 the first co_split rows, then with the rest                   *)
 
 Record ccase := CC {
   cc_sep : str;  cc_dup : bool;
@@ -57,31 +59,51 @@ Definition output_of (ob : cobs) : option output :=
 
 Definition is_none {A} (x : option A) : bool := match x with None => true | _ => false end.
 
-(* model against implementation: same accept / reject decision; for an accepted call the same
-   node objects, names, shape, attribute maps, separator and returned node(s) *)
+(* model against implementation: same accept / reject decision; the same node objects, names,
+   shape and attribute maps afterwards (also after a refused call on an existing tree: what the
+   earlier rows did stays, the refused row adds what the code adds before it raises); for an
+   accepted call also the separator and the returned node(s) *)
 Definition agree (m o : output) : bool :=
   Bool.eqb (is_none (o_res m)) (is_none (o_res o))
+  && match o_tree m, o_tree o with
+     | Some a, Some b => same_tree a b
+     | None, None => true
+     | _, _ => false
+     end
   && (if is_none (o_res m)
-      then match o_tree m, o_tree o with
-           | Some a, Some b => same_tree a b
-           | None, None => true
-           | _, _ => false
-           end
-           && str_eqb (o_sep m) (o_sep o)
+      then str_eqb (o_sep m) (o_sep o)
            && list_eqb (list_eqb Nat.eqb) (o_rets m) (o_rets o)
       else true).
+
+(* two calls on the same tree: rows[:n], then rows[n:] on the tree the first call left *)
+Definition run_split (k : kind) (i0 : input) (n : nat) : output :=
+  let m1 := run k (eff_input k (with_rows i0 (firstn n (i_rows i0)))) in
+  match o_res m1, o_tree m1 with
+  | None, Some t1 =>
+      run k (eff_input k (MkIn (i_sep i0) (i_dup i0) t1 (i_tsep i0) (i_start i0) (i_pcol i0)
+                               (skipn n (i_rows i0))))
+  | _, _ => m1
+  end.
 
 (* per observed entry point: (skipped, disagree, property false) *)
 Definition check_one (c : ccase) (ob : cobs) : bool * bool * bool :=
   match input_of c, output_of ob with
   | Some i0, Some o =>
       let k := co_kind ob in
-      let i := eff_input k i0 in
-      let m := run k i in
-      match o_res m with
-      | Some Unmodelled => (true, false, false)
-      | _ => (false, negb (agree m o), negb (prop_C05 k i o))
-      end
+      if Nat.eqb (co_split ob) 0 then
+        let i := eff_input k i0 in
+        let m := run k i in
+        match o_res m with
+        | Some Unmodelled => (true, false, false)
+        | _ => (false, negb (agree m o), negb (prop_C05 k i o))
+        end
+      else
+        (* the property predicate speaks about one call; a double call is compared with the model only *)
+        let m := run_split k i0 (co_split ob) in
+        match o_res m with
+        | Some Unmodelled => (true, false, false)
+        | _ => (false, negb (agree m o), false)
+        end
   | _, _ => (false, true, false)
   end.
 
